@@ -273,3 +273,12 @@ Proof.
 Qed.
 
 Print Assumptions C15_whole_pipeline_accept.
+
+(* The ORDER of the passes that Pipeline.v sequences (and in which the first error wins), TRANSLATED from the two
+   `run_passes` functions of generation/src/{mir,lir}/passes/mod.rs on every build: enum_values_checked runs after names_unique and before bool_fields_checked / bit_ranges_validated. *)
+From DD Require GenPassOrder.
+Theorem C15_pass_order_from_source :
+  DDGen.PassOrder.mir_pass_order = GenPassOrder.expected_mir_pass_order /\
+  DDGen.PassOrder.lir_pass_order = GenPassOrder.expected_lir_pass_order.
+Proof. exact GenPassOrder.pass_order_as_modelled. Qed.
+Print Assumptions C15_pass_order_from_source.
